@@ -1631,7 +1631,12 @@ func ccRunAlias(o opts) error {
 		}
 	}
 	// primitive cases: n/2 repaired schedules (judged by the monitor) ...
+	// -replay only:shared-persister: nothing but application cases in the long-lived-server shape (registration under C18)
+	onlyShared := o.replay == "only:shared-persister"
 	np := o.n / 2
+	if onlyShared {
+		np = 0
+	}
 	for i := 0; i < np; i++ {
 		r := hx.Rng(o.seed, "alias-prim", i)
 		c, same := ccPrimCase("prim", ccGenPrim(r, false))
@@ -1643,6 +1648,9 @@ func ccRunAlias(o opts) error {
 	// ... and n/10 schedules containing the pre-repair OpAdopt: the monitor does not judge them, the model
 	// must reproduce what Go did, interference included
 	nad := o.n / 10
+	if onlyShared {
+		nad = 0
+	}
 	for i := 0; i < nad; i++ {
 		r := hx.Rng(o.seed, "alias-adopt", i)
 		c, same := ccPrimCase("prim-adopt", ccGenPrim(r, true))
@@ -1657,7 +1665,7 @@ func ccRunAlias(o opts) error {
 	for i := 0; i < na; i++ {
 		r := hx.Rng(o.seed, "alias-app", i)
 		stop := ccWatchdog(fmt.Sprintf("alias application case %d (seed %d)", i, o.seed))
-		shared := i%3 == 2
+		shared := i%3 == 2 || onlyShared
 		var g ccGen
 		if shared {
 			g = ccGenLangApp(r, false)
